@@ -65,4 +65,5 @@ def main():
     print("silent %d, FALSE ALARMS %d, no verdict %d, not applicable %d" % (tot[0], tot[1], tot[2], tot[3]))
 
 
-main()
+if __name__ == "__main__":
+    main()
